@@ -28,7 +28,7 @@ ANCHORS = [
     "acnportal.contrib.acnsim.network.stochastic_network:StochasticNetwork.post_charging_update",
     "acnportal.contrib.acnsim.network.stochastic_network:StochasticNetwork.available_evses",
 ]
-REQUIRED = ["networks_built_without_mentioning_early_departure", "calls:plugin", "calls:unplug", "calls:post_update", "walks", "placed_on_free_station", "enqueued", "admitted_from_queue",
+REQUIRED = ["runs_under_warnings_as_errors", "second_runs_on_the_network_object_of_the_first", "networks_built_without_mentioning_early_departure", "calls:plugin", "calls:unplug", "calls:post_update", "walks", "placed_on_free_station", "enqueued", "admitted_from_queue",
             "departed_while_waiting", "early_departures", "late_unplug_of_early_leaver", "runs_completed", "replays_compared", "xproc_runs_compared", "energy_ledgers_checked",
             "arrivals_delivered_in_the_legacy_two_argument_form", "runs_with_cars_connected_by_hand_before_the_run", "early_option_given_as:np", "early_option_given_as:int", "early_option_given_as:attr", "regime:early-on", "regime:early-off", "regime:more-sessions-than-stations", "regime:simultaneous-departure-connected-and-waiting",
             "distinct_station_choices"]
@@ -123,14 +123,19 @@ def fully_charged(ev):
     return not (rem > 1e-3)
 
 
-def monitored_run(d, rseed, obs, judge=True):
+def monitored_run(d, rseed, obs, judge=True, network=None, strict=False):
+    """network: the (emptied) network object of an earlier run, used again.  strict: the process turns warnings into exceptions;
+    a call that raises one is judged for what it left behind (nobody lost, nobody twice, nobody waiting beside a free space)."""
     from acnportal.contrib.acnsim.network.stochastic_network import StochasticNetwork
     random.seed(rseed)
+
     # the option arrives as the caller has it: a python bool, a numpy bool out of a parameter sweep, 0/1, or it is switched
     # after construction through the public attribute
     how = d.get("early_as", "bool")
     flag = {"bool": bool, "np": np.bool_, "int": int}.get(how, bool)(d["early"])
-    if how == "attr":
+    if network is not None:
+        sim, evs = build.build_sim(d, network=network)
+    elif how == "attr":
         sim, evs = build.build_sim(d, net_cls=StochasticNetwork, net_kw={"early_departure": not d["early"]})
         sim.network.early_departure = d["early"]
     else:
@@ -160,6 +165,8 @@ def monitored_run(d, rseed, obs, judge=True):
         poke(sim.event_queue)
     stations = list(net.station_ids)
     sh = Shadow(stations)
+    if network is not None:  # the counters of a network that served before go on counting
+        sh.never_charged, sh.early_unplug, sh.swaps = net.never_charged, net.early_unplug, net.swaps
     log = []  # placement log: (iteration, op, session, station)
     posts = {"n": 0}
     state = {"in_post": False, "depth": 0}
@@ -216,6 +223,18 @@ def monitored_run(d, rseed, obs, judge=True):
             obs.ev("early_unplug_counter_differs_from_model")  # a statistic the statement does not mention: recorded only
         return True
 
+    def half_done(where, subjects):
+        """A call raised a Warning turned into an exception: whatever it did or did not do, nobody may be lost or doubled."""
+        obs.ev("calls_that_raised_a_warning_as_error")
+        occ, waiting = real()
+        on = [v for v in occ.values() if v is not None]
+        here = set(on) | set(waiting)
+        present = sh.arrived - sh.gone
+        lost, ghost = present - here - set(subjects), here - present - set(subjects)
+        if len(on) != len(set(on)) or set(on) & set(waiting) or lost or ghost or (waiting and any(v is None for v in occ.values())):
+            obs.violate("call_interrupted_by_a_warning_left_a_half_done_state", f"{where}: stations {occ} waiting {waiting}; present by history "
+                        f"{sorted(present)} (lost {sorted(lost)}, ghost {sorted(ghost)})", **wit)
+
     # ---------------- plugin
     def plugin_before(_o, a, k):
         if state["in_post"] or state["depth"]:
@@ -228,6 +247,9 @@ def monitored_run(d, rseed, obs, judge=True):
             return
         obs.ev("calls:plugin")
         sid = ctx["sid"]
+        if exc is not None and strict and isinstance(exc, Warning):
+            half_done(f"plugin({sid}) raised {type(exc).__name__} in period {sim.iteration}", [sid])
+            return
         if exc is not None:
             obs.violate("plugin_raised", f"plugin({sid}) raised {type(exc).__name__}: {exc}", **wit)
             return
@@ -265,6 +287,9 @@ def monitored_run(d, rseed, obs, judge=True):
         state["depth"] -= 1
         obs.ev("calls:unplug")
         sid = ctx["sid"]
+        if exc is not None and strict and isinstance(exc, Warning):
+            half_done(f"unplug(.., {sid}) raised {type(exc).__name__} in period {sim.iteration}", [sid])
+            return
         if exc is not None:
             obs.violate("unplug_raised", f"unplug(.., {sid}) raised {type(exc).__name__}: {exc}", **wit)
             return
@@ -305,6 +330,9 @@ def monitored_run(d, rseed, obs, judge=True):
         state["in_post"] = False
         posts["n"] += 1
         obs.ev("calls:post_update")
+        if exc is not None and strict and isinstance(exc, Warning):
+            half_done(f"post_charging_update raised {type(exc).__name__} in period {sim.iteration}", [v for v, f_ in ctx["fc"].items() if f_ is not False])
+            return
         if exc is not None:
             obs.violate("post_update_raised", f"{type(exc).__name__}: {exc}", **wit)
             return
@@ -375,7 +403,7 @@ def monitored_run(d, rseed, obs, judge=True):
             obs.ev("runs_with_cars_connected_by_hand_before_the_run")
     try:
         with warnings.catch_warnings():
-            warnings.simplefilter("ignore")
+            warnings.simplefilter("error" if strict else "ignore")
             sim.run()
     except Exception as e:
         exc = e
@@ -446,8 +474,19 @@ def run_case(case, obs):
     d, rseed = case["desc"], case["rseed"]
     obs.evals = 0
     wit = dict(scenario=d, rseed=rseed)
-    sim, sh, log, exc = monitored_run(d, rseed, obs)
+    strict = rseed % 6 == 1
+    if strict:
+        d = dict(d, legacy_plugin=False, hold_back=[])  # (no call forms for which the library itself announces a deprecation)
+        wit = dict(scenario=d, rseed=rseed, warnings_as_errors=True)
+    sim, sh, log, exc = monitored_run(d, rseed, obs, strict=strict)
     obs.regime("regime:early-on" if d["early"] else "regime:early-off")
+    if strict:
+        obs.ev("runs_under_warnings_as_errors")
+        if isinstance(exc, Warning):
+            # the user's own filter ended the run (e.g. the simulator's warning about an infeasible schedule): what the network
+            # calls left behind was judged where they returned or raised; the rest of the run did not happen
+            obs.ev("runs_ended_by_a_warning_raised_as_error")
+            return
     if exc is not None:
         obs.violate("run_raised", f"{type(exc).__name__}: {exc}", **wit)
         return
@@ -509,6 +548,21 @@ def run_case(case, obs):
         obs.violate("not_reproducible_under_fixed_seed", f"placement logs diverge at entry {i}: {log[i:i + 2]} vs {log2[i:i + 2]}", **wit)
     obs.sample = {"stations": nst, "sessions": len(sess), "early_departure": d["early"], "scheduler": d["scheduler"]["kind"],
                   "rseed": rseed, "placement_log": log[:14], "never_charged": sh.never_charged, "early_unplug": sh.early_unplug}
+    if rseed % 4 == 2 and not d.get("hold_back"):
+        # the car park of the first run (empty again) serves a second simulation with the same sessions - a second day, a repeated
+        # experiment on one network object: placement, queue, early departures and the final state are judged as in the first
+        sim3, sh3, log3, exc3 = monitored_run(d, rseed + 1, obs, network=net)
+        obs.ev("second_runs_on_the_network_object_of_the_first")
+        w3 = dict(wit, second_run_on_the_same_network_object=True)
+        if exc3 is not None:
+            obs.violate("run_raised", f"second run on the same network object: {type(exc3).__name__}: {exc3}", **w3)
+            return
+        left = {s_: net.get_ev(s_).session_id for s_ in net.station_ids if net.get_ev(s_) is not None}
+        if left or len(net.waiting_queue):
+            obs.violate("not_empty_after_run", f"second run on the same network object: stations {left} waiting {list(net.waiting_queue)}", **w3)
+        if sh3.arrived != sids or sh3.gone != sids:
+            obs.violate("session_never_arrived_or_never_left", f"second run on the same network object: arrived {sorted(sh3.arrived)} gone "
+                        f"{sorted(sh3.gone)} expected {sorted(sids)}", **w3)
 
 
 def classify(v):
